@@ -57,6 +57,8 @@ func genC26Pending(g *Gen) {
 		g.Count(fmt.Sprintf("pend:failalls=%d", fa))
 		g.Op("pend", "%d %d %d %d %d %d %d", shards, callers, fa, pc, px, pd, g.R.U64()>>1)
 	}
+	g.Case()
+	genC26E2E(g)
 }
 
 type c26PendRunner struct{}
@@ -97,6 +99,9 @@ func c26RespStr(r transport.VerifResponse) string {
 }
 
 func (p *c26PendRunner) step(f []string) string {
+	if f[0] == "e2e" {
+		return c26E2E(f)
+	}
 	if len(f) != 8 || f[0] != "pend" {
 		return "bad-op"
 	}
